@@ -38,6 +38,8 @@ def obligations(tier):
     obs.append(Ob("C09.dispatcher_long", "CH", "harness.h_track", "dispatcher_long", 900, funcs=("chartparse.track.parse_data_from_chart_lines",),
                   bounds="a section of 5..4097 lines (15 sizes around powers of two) of one kind followed by 1-3 lines accepted by any subset of the three kinds: "
                          "first accepting kind of the caller's order wins however long the section (native execution, solver-chosen case)"))
+    obs.append(Ob("C09.file_scale", "CH", "harness.h_chart", "crlf_file_scale", 1500, funcs=("chartparse.chart.Chart.from_file",),
+                  bounds="a 130 000-character chart read whole: block boundaries (2^k characters) on line boundaries, LF and CRLF: every event line still lands in its list"))
     return obs
 
 
